@@ -275,6 +275,41 @@ class SDVRPSpec(CVRPSpec):
         return [3] if tier == "quick" else [3, 4]
 
 
+class HalfCapSpec(SDVRPSpec):
+    """the documented generator option vehicle_capacity != 1 (here 0.5): mask, step and checker must all use it"""
+
+    CAP = 0.5
+
+    def gen_params(self, inst):
+        return dict(num_loc=self.size_of(inst), vehicle_capacity=self.CAP)
+
+    def oracle_cfg(self, inst):
+        return dict(self.cfg, vehicle_capacity=self.CAP)
+
+    def well_formed(self, inst):
+        return max(inst["demand"]) <= self.CAP or self.kind == "sdvrp"
+
+    def step_bound(self, inst):
+        n = self.size_of(inst)
+        loads = math.ceil(sum(inst["demand"]) / self.CAP - 1e-9)
+        return 2 * (n + loads) + 1
+
+    def hand_instances(self, tier):
+        out = []
+        E8 = (0.125, 0.25, 0.375, 0.5)
+        combos = list(itertools.product(E8, repeat=3))
+        if tier == "quick":
+            combos = combos[::3]
+        for dv in combos:
+            inst = _cvrp_inst(DIAMOND[:3], dv)
+            inst["capacity"] = [self.CAP]
+            out.append((f"diamond3-{'-'.join(str(int(x * 8)) for x in dv)}", inst))
+        return out
+
+    def seeded_instances(self, tier, seed):
+        return []
+
+
 class CVRPTWSpec(CVRPSpec):
     T = 2.0
 
@@ -624,6 +659,8 @@ def all_specs():
         CVRPSpec("cvrp", "cvrp", CVRPEnv),
         CVRPTWSpec("cvrptw", "cvrptw", CVRPTWEnv),
         SDVRPSpec("sdvrp", "sdvrp", SDVRPEnv),
+        HalfCapSpec("sdvrp:cap05", "sdvrp", SDVRPEnv),
+        HalfCapSpec("cvrp:cap05", "cvrp", CVRPEnv),
         SVRPSpec("svrp", "svrp", SVRPEnv),
         OPSpec("op:dist", "dist"),
         OPSpec("op:unif", "unif"),
